@@ -2246,21 +2246,21 @@ fn evaluate_scalar_func(
                         let value = get_int_value(value_arr, i)? as i64;
 
                         let new_date = match unit.as_str() {
-                            "day" | "days" => date.checked_add_signed(Duration::days(value))?,
-                            "week" | "weeks" => date.checked_add_signed(Duration::weeks(value))?,
+                            "day" | "days" => date.checked_add_signed(Duration::try_days(value)?)?,
+                            "week" | "weeks" => date.checked_add_signed(Duration::try_weeks(value)?)?,
                             "month" | "months" => {
                                 if value >= 0 {
-                                    date.checked_add_months(Months::new(value as u32))?
+                                    date.checked_add_months(Months::new(u32::try_from(value).ok()?))?
                                 } else {
-                                    date.checked_sub_months(Months::new((-value) as u32))?
+                                    date.checked_sub_months(Months::new(u32::try_from(value.checked_neg()?).ok()?))?
                                 }
                             }
                             "year" | "years" => {
-                                let months = value * 12;
+                                let months = value.checked_mul(12)?;
                                 if months >= 0 {
-                                    date.checked_add_months(Months::new(months as u32))?
+                                    date.checked_add_months(Months::new(u32::try_from(months).ok()?))?
                                 } else {
-                                    date.checked_sub_months(Months::new((-months) as u32))?
+                                    date.checked_sub_months(Months::new(u32::try_from(months.checked_neg()?).ok()?))?
                                 }
                             }
                             _ => return None,
@@ -2292,27 +2292,27 @@ fn evaluate_scalar_func(
 
                         let new_dt = match unit.as_str() {
                             "second" | "seconds" => {
-                                dt.checked_add_signed(Duration::seconds(value))?
+                                dt.checked_add_signed(Duration::try_seconds(value)?)?
                             }
                             "minute" | "minutes" => {
-                                dt.checked_add_signed(Duration::minutes(value))?
+                                dt.checked_add_signed(Duration::try_minutes(value)?)?
                             }
-                            "hour" | "hours" => dt.checked_add_signed(Duration::hours(value))?,
-                            "day" | "days" => dt.checked_add_signed(Duration::days(value))?,
-                            "week" | "weeks" => dt.checked_add_signed(Duration::weeks(value))?,
+                            "hour" | "hours" => dt.checked_add_signed(Duration::try_hours(value)?)?,
+                            "day" | "days" => dt.checked_add_signed(Duration::try_days(value)?)?,
+                            "week" | "weeks" => dt.checked_add_signed(Duration::try_weeks(value)?)?,
                             "month" | "months" => {
                                 if value >= 0 {
-                                    dt.checked_add_months(Months::new(value as u32))?
+                                    dt.checked_add_months(Months::new(u32::try_from(value).ok()?))?
                                 } else {
-                                    dt.checked_sub_months(Months::new((-value) as u32))?
+                                    dt.checked_sub_months(Months::new(u32::try_from(value.checked_neg()?).ok()?))?
                                 }
                             }
                             "year" | "years" => {
-                                let months = value * 12;
+                                let months = value.checked_mul(12)?;
                                 if months >= 0 {
-                                    dt.checked_add_months(Months::new(months as u32))?
+                                    dt.checked_add_months(Months::new(u32::try_from(months).ok()?))?
                                 } else {
-                                    dt.checked_sub_months(Months::new((-months) as u32))?
+                                    dt.checked_sub_months(Months::new(u32::try_from(months.checked_neg()?).ok()?))?
                                 }
                             }
                             _ => return None,
